@@ -32,6 +32,7 @@ type c03Case struct {
 	UserShape string `json:"user_shape,omitempty"`
 	RealClock bool   `json:"real_clock,omitempty"`
 	Tick      string `json:"tick,omitempty"` // the clock advances by this much with every reading (1us | 1ms | 1s | 7m)
+	Zone      string `json:"zone,omitempty"` // local zone of the process clock for this case: "" +05:45 | utc | -08:00 | +14:00 | -00:01
 	Jump      string `json:"jump,omitempty"` // history: an earlier callback, then the clock jumps by this much (Go duration), then the judged callback
 	ACSEmpty  bool   `json:"acs_empty,omitempty"` // the stored consumer URL is empty (response returned in the body)
 	// history: a second stored request for another user shape is called back first on the same provider
@@ -101,6 +102,7 @@ func (c c03Case) labels() []string {
 	if c.RealClock {
 		l = append(l, "real-clock")
 	}
+	add("local-zone", c.Zone)
 	add("clock-advances-with-every-reading-by", c.Tick)
 	add("clock-jumps-after-an-earlier-callback-by", c.Jump)
 	if c.ACSEmpty {
@@ -127,6 +129,11 @@ func c03Judge(c c03Case, checkIDs bool) c03Verdict {
 		defer world.PinClock()
 	}
 	now := world.Now
+	if c.Zone != "" {
+		old := vhook.ClockZone.Load()
+		defer vhook.ClockZone.Store(old)
+		vhook.ClockZone.Store(map[string]*time.Location{"utc": time.UTC, "-08:00": time.FixedZone("", -8*3600), "+14:00": time.FixedZone("", 14*3600), "-00:01": time.FixedZone("", -60)}[c.Zone])
+	}
 	if c.Tick != "" {
 		step, err := time.ParseDuration(c.Tick)
 		if err != nil {
@@ -412,6 +419,15 @@ func runC03(ctx Ctx) int {
 				cases = append(cases, c)
 			}
 		}
+		// the process runs in another local time zone
+		for _, z := range []string{"utc", "-08:00", "+14:00", "-00:01"} {
+			for _, cfg := range configs {
+				c := cfg
+				c.Binding, c.Zone = b, z
+				cases = append(cases, c)
+			}
+			cases = append(cases, c03Case{Binding: b, Zone: z, Tick: "1s"}, c03Case{Binding: b, Zone: z, ACSEmpty: true})
+		}
 		// ... and jumps between an earlier callback and the judged one (nothing computed from the earlier clock may be reused)
 		for _, j := range []string{"1us", "1s", "4m59s", "5m", "5m1s", "1h", "24h", "8784h", "-1h"} {
 			cases = append(cases, c03Case{Binding: b, Jump: j})
@@ -443,7 +459,7 @@ func runC03(ctx Ctx) int {
 	// real-clock cases run alone (they un-pin the process-wide clock)
 	var pinned, real []c03Case
 	for _, c := range cases {
-		if c.RealClock || c.Tick != "" || c.Jump != "" {
+		if c.RealClock || c.Tick != "" || c.Jump != "" || c.Zone != "" {
 			real = append(real, c)
 		} else {
 			pinned = append(pinned, c)
